@@ -120,6 +120,51 @@ def _kw(stmt, for_np: bool):
     return out
 
 
+def _activation(be, f, x, s, kw):
+    p1 = dec_num(s["p1"]) if "p1" in s else None
+    p2 = dec_num(s["p2"]) if "p2" in s else None
+    if be == "mg":
+        if f == "leaky_relu":
+            return mg.nnet.activations.leaky_relu(x, p1, **kw)
+        if f == "hard_tanh":
+            return mg.nnet.activations.hard_tanh(x, lower_bound=p1, upper_bound=p2, **kw)
+        if f == "soft_sign":
+            return mg.nnet.activations.soft_sign(x, **kw)
+        return mg.clip(x, p1, p2, **kw)
+    x = np.asarray(x)
+    if f == "leaky_relu":
+        return np.maximum(x, 0) + p1 * np.minimum(x, 0)
+    if f == "hard_tanh":
+        return np.maximum(p1, np.minimum(x, p2))
+    if f == "soft_sign":
+        return x / (1 + np.abs(x))
+    return np.clip(x, p1, p2)
+
+
+def _np_conv(x, w, stride, pad, dil):
+    """Plain-loop N-d convolution (the twin's own definition: zero padding, 'valid' placements)."""
+    nd = x.ndim - 2
+    xp = np.pad(x, [(0, 0), (0, 0)] + [(p, p) for p in pad])
+    osp = [(xp.shape[2 + j] - ((w.shape[2 + j] - 1) * dil[j] + 1)) // stride[j] + 1 for j in range(nd)]
+    out = np.zeros((x.shape[0], w.shape[0], *osp), dtype=np.result_type(x, w))
+    for o in np.ndindex(*osp):
+        for k in np.ndindex(*w.shape[2:]):
+            pos = tuple(o[j] * stride[j] + k[j] * dil[j] for j in range(nd))
+            out[(slice(None), slice(None)) + o] += xp[(slice(None), slice(None)) + pos] @ w[(slice(None), slice(None)) + k].T
+    return out
+
+
+def _np_maxpool(x, pool, stride):
+    nd = len(pool)
+    lead = x.shape[: x.ndim - nd]
+    osp = [(x.shape[x.ndim - nd + j] - pool[j]) // stride[j] + 1 for j in range(nd)]
+    out = np.empty((*lead, *osp), dtype=x.dtype)
+    for o in np.ndindex(*osp):
+        win = x[(Ellipsis,) + tuple(slice(o[j] * stride[j], o[j] * stride[j] + pool[j]) for j in range(nd))]
+        out[(Ellipsis,) + o] = win.reshape(*lead, -1).max(axis=-1)
+    return out
+
+
 import operator as _operator  # noqa: E402
 
 _OPERATORS = {"add": _operator.add, "subtract": _operator.sub, "multiply": _operator.mul, "divide": _operator.truediv,
@@ -233,6 +278,48 @@ class Exec:
             r = L.roll(xs[0], s["shift"], axis=s["axis"], **kw)
         elif f == "diag":
             r = L.einsum("ii->i", xs[0], **kw)
+        elif f in ("leaky_relu", "hard_tanh", "soft_sign", "clip"):
+            r = _activation(self.be, f, xs[0], s, kw)
+        elif f in ("cumsum", "cumprod"):
+            r = getattr(L, f)(xs[0], **kw)
+        elif f in ("addseq", "mulseq"):
+            if self.be == "mg":
+                r = (mg.add_sequence if f == "addseq" else mg.multiply_sequence)(*xs, **kw)
+            else:
+                r = xs[0]
+                for x in xs[1:]:
+                    r = (np.add if f == "addseq" else np.multiply)(r, x)
+        elif f == "einsum":
+            lab = lambda seq: "".join(chr(ord("a") + int(k)) for k in seq)  # noqa: E731
+            r = L.einsum(",".join(lab(q) for q in s["subs"]) + "->" + lab(s["out"]), *xs, **kw)
+        elif f == "conv":
+            if self.be == "mg":
+                r = mg.nnet.layers.conv_nd(xs[0], xs[1], stride=tuple(s["stride"]), padding=tuple(s["pad"]),
+                                           dilation=tuple(s["dil"]), **kw)
+            else:
+                r = _np_conv(np.asarray(xs[0]), np.asarray(xs[1]), s["stride"], s["pad"], s["dil"])
+        elif f == "maxpool":
+            if self.be == "mg":
+                r = mg.nnet.layers.max_pool(xs[0], tuple(s["pool"]), tuple(s["stride"]), **kw)
+            else:
+                r = _np_maxpool(np.asarray(xs[0]), s["pool"], s["stride"])
+        elif f == "margin_ranking":
+            y = dec_arr(s["y"]["sh"], s["y"]["v"])
+            m = dec_num(s["margin"])
+            if self.be == "mg":
+                r = mg.nnet.losses.margin_ranking_loss(xs[0], xs[1], y, m, **kw)
+            else:
+                r = np.mean(np.maximum(0.0, m - y * (np.asarray(xs[0]) - np.asarray(xs[1]))))
+        elif f == "multiclass_hinge":
+            y = np.array(s["y"], dtype=np.int64)
+            hg = dec_num(s["hinge"])
+            if self.be == "mg":
+                r = mg.nnet.losses.multiclass_hinge(xs[0], y, hg, **kw)
+            else:
+                x = np.asarray(xs[0])
+                mm = np.maximum(0.0, x - x[np.arange(len(y)), y][:, None] + hg)
+                mm[np.arange(len(y)), y] = 0.0
+                r = mm.sum() / x.shape[0]
         else:  # pragma: no cover
             raise ValueError(f"unknown op {f}")
         if self.be == "np":
